@@ -1073,6 +1073,35 @@ impl CacheFacade {
         self.cache.remove_service_type(ty_domain);
     }
 
+    /// `remove_records_on_intf`: (fully removed (type, instance) pairs, modified instances)
+    pub fn remove_intf(&mut self, if_name: &str, if_index: u32) -> (Vec<(String, String)>, Vec<String>) {
+        let r = self.cache.remove_records_on_intf(InterfaceId {
+            name: if_name.to_string(),
+            index: if_index,
+        });
+        let mut removed: Vec<(String, String)> = r
+            .removed_instances
+            .into_iter()
+            .flat_map(|(t, set)| set.into_iter().map(move |i| (t.clone(), i)))
+            .collect();
+        removed.sort();
+        let mut modified: Vec<String> = r.modified_instances.into_iter().collect();
+        modified.sort();
+        (removed, modified)
+    }
+
+    /// `remove_addrs_on_disabled_intf`
+    pub fn remove_addrs(&mut self, if_index: u32, v4: bool, v6: bool) {
+        use crate::dns_cache::IpType;
+        let t = match (v4, v6) {
+            (true, true) => IpType::BOTH,
+            (true, false) => IpType::V4,
+            (false, true) => IpType::V6,
+            _ => return,
+        };
+        self.cache.remove_addrs_on_disabled_intf(if_index, t);
+    }
+
     pub fn counts(&self) -> (usize, usize, usize, usize, usize) {
         (
             self.cache.ptr_count(),
